@@ -58,9 +58,9 @@ def t_match_to_time(h: int, m: int, s: int, ry: int, rmo: int, rd: int):
 
 # ---- the second (pm) reading of an ambiguous time -----------------------------------------------
 def h_to_pm(h: int, m: int, s: int):
-    assert 1 <= h <= 12 and 0 <= m <= 59 and 0 <= s <= 59
+    assert 0 <= h <= 23 and 0 <= m <= 59 and 0 <= s <= 59
     digits.reset()
-    eh = 0 if h == 12 else h + 12          # the code's convention: 12 -> 00 (noon/midnight pair), otherwise +12 h
+    eh = h + 12 if h < 12 else h - 12      # the other half of the day: always an hour of the clock (0..23), 12 -> 00
     # value string HH:MM:SS
     out = DateTimeFormatUtil.to_pm(digits.ph(h, 2) + ':' + digits.ph(m, 2) + ':' + digits.ph(s, 2))
     assert digits.same(digits.decode(out), [(eh, 2), ':', (m, 2), ':', (s, 2)])
